@@ -50,7 +50,7 @@ C10_VHash       == C10_VHashS(s)
 \* sanity of the model itself: the stored flag carries 0x10000 iff Decision, the client bit is preserved
 StoredFlagOK == s.rec.loc # "none" =>
                   /\ HasBit(s.rec.sflag, FLAG_COMPRESS) = (s.rec.form # "plain")
-                  /\ s.rec.sflag % FLAG_COMPRESS = s.cur.cflag
+                  /\ s.rec.sflag - (IF HasBit(s.rec.sflag, FLAG_COMPRESS) THEN FLAG_COMPRESS ELSE 0) = s.cur.cflag
 
 -----------------------------------------------------------------------------
 (* generator *)
